@@ -43,7 +43,8 @@ CLAIM = ('Necessary structural conditions of WHATWG conformance, each over all c
          'Foster parenting is applied exactly when it is enabled and the current node is a table, tbody, '
          "tfoot, thead or tr; the adoption agency's outer loop is bounded by 8 and its inner loop is not "
          'bounded by a counter (known finding).'
-         " The newline-dropping handler, the fragment form pointer and adoption-agency step 2 are looked for as code shapes (two known findings); the switch to 'after frameset' carries both conditions of the standard's sentence; first-match searches written as generators are read too.")
+         " The newline-dropping handler, the fragment form pointer and adoption-agency step 2 are looked for as code shapes (two known findings); the switch to 'after frameset' carries both conditions of the standard's sentence; first-match searches written as generators are read too."
+         ' A foster-parenting bracket that can be re-entered restores the value it found; in table, characters become table text only when the current node is table / tbody / tfoot / thead / tr (both handlers run on nine current-node names).')
 NOT_DECIDED = ('the tree itself: adoption agency, reconstruction of formatting elements, foster parenting positions, '
                'the conditions under which a mode switch is taken (only its possible and required targets are '
                'decided), quirks-mode effects.')
